@@ -219,6 +219,156 @@ Definition opened_at (m : mstate) (si : nat) : bool :=
   | None => false
   end.
 
+Section TraverseC.
+  (* traversal with the two composite rotations (Muxer.rotatePartsInner / rotateSegmentsInner) as units *)
+  Variable GG : mstate -> Prop.
+  Hypothesis H_frame : forall m tracks pending sdurs adj freeze errs,
+    map tk_frame tracks = map tk_frame (m_tracks m) ->
+    GG m -> GG {| m_cfg := m_cfg m; m_tracks := tracks; m_streams := m_streams m; m_pending := pending;
+                  m_sdurs := sdurs; m_adj := adj; m_freeze := freeze; m_paths := m_paths m; m_errs := errs |}.
+  (* createFirstSegment is only ever called for a track of the state whose stream is not open *)
+  Hypothesis H_create : forall m d ntp ti t,
+    nth_error (m_tracks m) ti = Some t -> opened_at m (tk_stream t) = false ->
+    GG m -> GG (createFirstSegment m d ntp).
+  Hypothesis HC_rotP : forall m d, GG m -> GG (rotateParts m d).
+  Hypothesis HC_rotS : forall m d ntp f, GG m -> GG (rotateSegments m d ntp f).
+  Hypothesis H_pws : forall m ti si smp m', GG m -> part_writeSample m ti si smp = Ok m' -> GG m'.
+  Hypothesis H_ts : forall m si u size e inc, GG m -> GG (fst (ts_write m si u size e inc)).
+
+  Lemma TC_upd_track m i f : (forall t, tk_frame (f t) = tk_frame t) -> GG m -> GG (upd_track m i f).
+  Proof. intros Hf H. unfold upd_track, set_tracks. apply H_frame; [now apply map_upd_static|exact H]. Qed.
+  Lemma TC_set_pending m b : GG m -> GG (set_pending m b).
+  Proof. intros H. unfold set_pending. now apply H_frame. Qed.
+  Lemma TC_set_adj m a b c : GG m -> GG (set_adj m a b c).
+  Proof. intros H. unfold set_adj. now apply H_frame. Qed.
+  Ltac tut := apply TC_upd_track; [intros ?; reflexivity|].
+
+  Lemma TC_adjust m sd : GG m -> GG (fmp4AdjustPartDuration m sd).
+  Proof.
+    intros H. unfold fmp4AdjustPartDuration. destruct (c_variant (m_cfg m)); auto.
+    destruct (m_freeze m); auto. destruct (sd =? 0); auto. destruct (existsb _ _); auto.
+    now apply TC_set_adj.
+  Qed.
+
+  Lemma TC_fmp4WriteSample m ti ra pc smp : GG m -> GG (fst (fmp4WriteSample m ti ra pc smp)).
+  Proof.
+    intros H. unfold fmp4WriteSample.
+    destruct (nth_error (m_tracks m) ti) as [t|] eqn:Ht; [|exact H].
+    destruct (_ <? 0); [exact H|].
+    destruct (tk_next t) as [prev|]; [|cbn [fst wok]; (tut; assumption)].
+    match goal with |- context [if ?c then wok ?a else _] =>
+      destruct c; [cbn [fst wok]; (tut; assumption)|] end.
+    match goal with |- context [part_writeSample ?m3 ti ?si ?smp] =>
+      assert (H3 : GG m3); [|destruct (part_writeSample m3 ti si smp) as [m4| |] eqn:Ew; [|exact H3|exact H3]] end.
+    { match goal with |- GG (if ?c then fmp4AdjustPartDuration ?x ?y else ?z) => destruct c end;
+        try apply TC_adjust;
+        (match goal with |- GG (if ?c then createFirstSegment ?x ?y ?z else ?w) => destruct c eqn:Ec end;
+         [|(tut; assumption)]);
+        (apply andb_true_iff in Ec; destruct Ec as [_ Ec]; apply negb_true_iff in Ec;
+         eapply H_create; [apply (nth_error_upd_same _ ti _ t Ht)|exact Ec|(tut; assumption)]). }
+    pose proof (H_pws _ _ _ _ _ H3 Ew) as H4.
+    destruct (negb (tk_leading t)); [exact H4|].
+    destruct (nth_error (m_streams m4) (tk_stream t)) as [s|]; [|exact H4].
+    match goal with |- context [if ?c then _ else _] => destruct c end.
+    - destruct pc; cbn [fst wok]; apply TC_set_adj; now apply HC_rotS.
+    - match goal with |- context [if ?c then _ else _] => destruct c end; [|exact H4].
+      cbn [fst wok]. now apply HC_rotP.
+  Qed.
+
+  Lemma TC_video_params m ti t a ex : GG m -> GG (fst (video_params m ti t a ex)).
+  Proof.
+    intros H. unfold video_params.
+    destruct (a_params a) as [p|].
+    - destruct (ex && negb (p =? tk_params t));
+        match goal with |- context [if ?c then _ else _] => destruct c end; cbn [fst];
+        repeat (first [apply TC_set_pending | tut]); exact H.
+    - match goal with |- context [if ?c then _ else _] => destruct c end; cbn [fst];
+        repeat (first [apply TC_set_pending | tut]); exact H.
+  Qed.
+
+  Lemma video_params_track m ti t a ex :
+    nth_error (m_tracks m) ti = Some t ->
+    exists t1, nth_error (m_tracks (fst (video_params m ti t a ex))) ti = Some t1 /\ tk_stream t1 = tk_stream t.
+  Proof.
+    intros Ht. unfold video_params.
+    destruct (a_params a) as [p|].
+    - destruct (ex && negb (p =? tk_params t));
+        match goal with |- context [if ?c then _ else _] => destruct c end; cbn [fst set_pending upd_track set_tracks m_tracks];
+        try (rewrite (nth_error_upd_same _ ti _ t Ht)); eauto.
+    - match goal with |- context [if ?c then _ else _] => destruct c end; cbn [fst set_pending m_tracks]; eauto.
+  Qed.
+
+  Lemma TC_write_video m ti t a : nth_error (m_tracks m) ti = Some t -> GG m -> GG (fst (write_video m ti t a)).
+  Proof.
+    intros Ht H. unfold write_video.
+    set (ex := match t_kind (tk_cfg t) with H264 | H265 => true | _ => a_ra a end).
+    pose proof (TC_video_params m ti t a ex H) as H1.
+    destruct (video_params_track m ti t a ex Ht) as (t1 & Ht1 & Es1).
+    destruct (video_params m ti t a ex) as [m1 pc]. cbn [fst] in H1, Ht1.
+    assert (H2 : GG (set_firstRA m1 ti)) by (unfold set_firstRA; (tut; assumption)).
+    destruct (t_kind (tk_cfg t)).
+    - destruct (negb (a_ra a) && negb (a_nonidr a)); [exact H1|].
+      destruct (negb (tk_firstRA t) && negb (a_ra a)); [exact H1|].
+      destruct (c_variant (m_cfg m)).
+      + apply H_ts.
+        match goal with |- GG (if ?c then _ else _) => destruct c eqn:Ec end.
+        * apply negb_true_iff in Ec.
+          eapply (H_create _ _ _ ti); [unfold set_firstRA, upd_track; cbn [set_tracks m_tracks]; apply (nth_error_upd_same _ ti _ t1 Ht1)| |exact H2].
+          cbn [tk_with tk_stream]. rewrite Es1. exact Ec.
+        * destruct (nth_error (m_streams (set_firstRA m1 ti)) (tk_stream t)); [|exact H2].
+          match goal with |- GG (if ?c then _ else _) => destruct c end; [|exact H2].
+          now apply HC_rotS.
+      + apply TC_fmp4WriteSample. exact H2.
+      + apply TC_fmp4WriteSample. exact H2.
+    - destruct (negb (tk_firstRA t) && negb (a_ra a)); [exact H1|]. apply TC_fmp4WriteSample. exact H2.
+    - destruct (negb (tk_firstRA t) && negb (a_ra a)); [exact H1|]. apply TC_fmp4WriteSample. exact H2.
+    - destruct (negb (tk_firstRA t) && negb (a_ra a)); [exact H1|]. apply TC_fmp4WriteSample. exact H2.
+    - destruct (negb (tk_firstRA t) && negb (a_ra a)); [exact H1|]. apply TC_fmp4WriteSample. exact H2.
+    - destruct (negb (tk_firstRA t) && negb (a_ra a)); [exact H1|]. apply TC_fmp4WriteSample. exact H2.
+  Qed.
+
+  Lemma TC_write_audio_units units : forall m ti k rate srate i pts ntp,
+    GG m -> GG (fst (write_audio_units m ti k rate srate i pts ntp units)).
+  Proof.
+    induction units as [|x units IH]; intros m ti k rate srate i pts ntp H; [exact H|].
+    cbn [write_audio_units].
+    destruct (match k with OPUS => (pts, ntp) | _ => _ end) as [upts untp].
+    match goal with |- context [fmp4WriteSample m ti true false ?s] =>
+      pose proof (TC_fmp4WriteSample m ti true false s H) as H1;
+      destruct (fmp4WriteSample m ti true false s) as [m' r] end.
+    cbn [fst] in H1. destruct r as [u|e|p]; [|exact H1|exact H1].
+    destruct k; apply IH; exact H1.
+  Qed.
+
+  Lemma TC_write_audio m ti t a : nth_error (m_tracks m) ti = Some t -> GG m -> GG (fst (write_audio m ti t a)).
+  Proof.
+    intros Ht H. unfold write_audio.
+    destruct (c_variant (m_cfg m)); try (apply TC_write_audio_units; exact H).
+    destruct (nth_error (m_streams m) (tk_stream t)) as [s|] eqn:Es; [|exact H].
+    match goal with |- context [if ?c then wok m else _] => destruct c; [exact H|] end.
+    apply H_ts.
+    destruct (tk_leading t); [|exact H].
+    match goal with |- GG (if ?c then _ else _) => destruct c eqn:Ec end.
+    - apply negb_true_iff in Ec. eapply H_create; [exact Ht| |exact H].
+      unfold opened_at. rewrite Es. exact Ec.
+    - destruct (st_open s); [|exact H].
+      match goal with |- GG (if ?c then _ else _) => destruct c end; [|exact H].
+      now apply HC_rotS.
+  Qed.
+
+  Lemma TC_mux_step m o : GG m -> GG (fst (mux_step m o)).
+  Proof.
+    intros H. destruct o as [ti a]. unfold mux_step, mux_write.
+    destruct (nth_error (m_tracks m) ti) as [t|] eqn:Ht; [|exact H].
+    destruct (isVideo _); [now apply TC_write_video|now apply TC_write_audio].
+  Qed.
+
+  Lemma TC_mux_run ops : forall m, GG m -> GG (mux_run m ops).
+  Proof.
+    induction ops as [|o ops IH]; intros m H; [exact H|]. cbn [mux_run]. apply IH. now apply TC_mux_step.
+  Qed.
+End TraverseC.
+
 Section Traverse.
   Variable GG : mstate -> Prop.
   Hypothesis H_frame : forall m tracks pending sdurs adj freeze errs,
@@ -235,14 +385,6 @@ Section Traverse.
     GG m -> GG (upd_stream m i (copy_targets both l)).
   Hypothesis H_pws : forall m ti si smp m', GG m -> part_writeSample m ti si smp = Ok m' -> GG m'.
   Hypothesis H_ts : forall m si u size e inc, GG m -> GG (fst (ts_write m si u size e inc)).
-
-  Lemma T_upd_track m i f : (forall t, tk_frame (f t) = tk_frame t) -> GG m -> GG (upd_track m i f).
-  Proof. intros Hf H. unfold upd_track, set_tracks. apply H_frame; [now apply map_upd_static|exact H]. Qed.
-  Lemma T_set_pending m b : GG m -> GG (set_pending m b).
-  Proof. intros H. unfold set_pending. now apply H_frame. Qed.
-  Lemma T_set_adj m a b c : GG m -> GG (set_adj m a b c).
-  Proof. intros H. unfold set_adj. now apply H_frame. Qed.
-  Ltac tut := apply T_upd_track; [intros ?; reflexivity|].
 
   Lemma fold_T {A} (f : mstate -> A -> mstate) (l : list A) :
     (forall m a, GG m -> GG (f m a)) -> forall m, GG m -> GG (fold_left f l m).
@@ -269,125 +411,9 @@ Section Traverse.
     intros; now apply H_rots.
   Qed.
 
-  Lemma T_adjust m sd : GG m -> GG (fmp4AdjustPartDuration m sd).
-  Proof.
-    intros H. unfold fmp4AdjustPartDuration. destruct (c_variant (m_cfg m)); auto.
-    destruct (m_freeze m); auto. destruct (sd =? 0); auto. destruct (existsb _ _); auto.
-    now apply T_set_adj.
-  Qed.
-
-  Lemma T_fmp4WriteSample m ti ra pc smp : GG m -> GG (fst (fmp4WriteSample m ti ra pc smp)).
-  Proof.
-    intros H. unfold fmp4WriteSample.
-    destruct (nth_error (m_tracks m) ti) as [t|] eqn:Ht; [|exact H].
-    destruct (_ <? 0); [exact H|].
-    destruct (tk_next t) as [prev|]; [|cbn [fst wok]; (tut; assumption)].
-    match goal with |- context [if ?c then wok ?a else _] =>
-      destruct c; [cbn [fst wok]; (tut; assumption)|] end.
-    match goal with |- context [part_writeSample ?m3 ti ?si ?smp] =>
-      assert (H3 : GG m3); [|destruct (part_writeSample m3 ti si smp) as [m4| |] eqn:Ew; [|exact H3|exact H3]] end.
-    { match goal with |- GG (if ?c then fmp4AdjustPartDuration ?x ?y else ?z) => destruct c end;
-        try apply T_adjust;
-        (match goal with |- GG (if ?c then createFirstSegment ?x ?y ?z else ?w) => destruct c eqn:Ec end;
-         [|(tut; assumption)]);
-        (apply andb_true_iff in Ec; destruct Ec as [_ Ec]; apply negb_true_iff in Ec;
-         eapply H_create; [apply (nth_error_upd_same _ ti _ t Ht)|exact Ec|(tut; assumption)]). }
-    pose proof (H_pws _ _ _ _ _ H3 Ew) as H4.
-    destruct (negb (tk_leading t)); [exact H4|].
-    destruct (nth_error (m_streams m4) (tk_stream t)) as [s|]; [|exact H4].
-    match goal with |- context [if ?c then _ else _] => destruct c end.
-    - destruct pc; cbn [fst wok]; apply T_set_adj; now apply T_rotateSegments.
-    - match goal with |- context [if ?c then _ else _] => destruct c end; [|exact H4].
-      cbn [fst wok]. now apply T_rotateParts.
-  Qed.
-
-  Lemma T_video_params m ti t a ex : GG m -> GG (fst (video_params m ti t a ex)).
-  Proof.
-    intros H. unfold video_params.
-    destruct (a_params a) as [p|].
-    - destruct (ex && negb (p =? tk_params t));
-        match goal with |- context [if ?c then _ else _] => destruct c end; cbn [fst];
-        repeat (first [apply T_set_pending | tut]); exact H.
-    - match goal with |- context [if ?c then _ else _] => destruct c end; cbn [fst];
-        repeat (first [apply T_set_pending | tut]); exact H.
-  Qed.
-
-  Lemma video_params_track m ti t a ex :
-    nth_error (m_tracks m) ti = Some t ->
-    exists t1, nth_error (m_tracks (fst (video_params m ti t a ex))) ti = Some t1 /\ tk_stream t1 = tk_stream t.
-  Proof.
-    intros Ht. unfold video_params.
-    destruct (a_params a) as [p|].
-    - destruct (ex && negb (p =? tk_params t));
-        match goal with |- context [if ?c then _ else _] => destruct c end; cbn [fst set_pending upd_track set_tracks m_tracks];
-        try (rewrite (nth_error_upd_same _ ti _ t Ht)); eauto.
-    - match goal with |- context [if ?c then _ else _] => destruct c end; cbn [fst set_pending m_tracks]; eauto.
-  Qed.
-
-  Lemma T_write_video m ti t a : nth_error (m_tracks m) ti = Some t -> GG m -> GG (fst (write_video m ti t a)).
-  Proof.
-    intros Ht H. unfold write_video.
-    set (ex := match t_kind (tk_cfg t) with H264 | H265 => true | _ => a_ra a end).
-    pose proof (T_video_params m ti t a ex H) as H1.
-    destruct (video_params_track m ti t a ex Ht) as (t1 & Ht1 & Es1).
-    destruct (video_params m ti t a ex) as [m1 pc]. cbn [fst] in H1, Ht1.
-    assert (H2 : GG (set_firstRA m1 ti)) by (unfold set_firstRA; (tut; assumption)).
-    destruct (t_kind (tk_cfg t)).
-    - destruct (negb (a_ra a) && negb (a_nonidr a)); [exact H1|].
-      destruct (negb (tk_firstRA t) && negb (a_ra a)); [exact H1|].
-      destruct (c_variant (m_cfg m)).
-      + apply H_ts.
-        match goal with |- GG (if ?c then _ else _) => destruct c eqn:Ec end.
-        * apply negb_true_iff in Ec.
-          eapply (H_create _ _ _ ti); [unfold set_firstRA, upd_track; cbn [set_tracks m_tracks]; apply (nth_error_upd_same _ ti _ t1 Ht1)| |exact H2].
-          cbn [tk_with tk_stream]. rewrite Es1. exact Ec.
-        * destruct (nth_error (m_streams (set_firstRA m1 ti)) (tk_stream t)); [|exact H2].
-          match goal with |- GG (if ?c then _ else _) => destruct c end; [|exact H2].
-          now apply T_rotateSegments.
-      + apply T_fmp4WriteSample. exact H2.
-      + apply T_fmp4WriteSample. exact H2.
-    - destruct (negb (tk_firstRA t) && negb (a_ra a)); [exact H1|]. apply T_fmp4WriteSample. exact H2.
-    - destruct (negb (tk_firstRA t) && negb (a_ra a)); [exact H1|]. apply T_fmp4WriteSample. exact H2.
-    - destruct (negb (tk_firstRA t) && negb (a_ra a)); [exact H1|]. apply T_fmp4WriteSample. exact H2.
-    - destruct (negb (tk_firstRA t) && negb (a_ra a)); [exact H1|]. apply T_fmp4WriteSample. exact H2.
-    - destruct (negb (tk_firstRA t) && negb (a_ra a)); [exact H1|]. apply T_fmp4WriteSample. exact H2.
-  Qed.
-
-  Lemma T_write_audio_units units : forall m ti k rate srate i pts ntp,
-    GG m -> GG (fst (write_audio_units m ti k rate srate i pts ntp units)).
-  Proof.
-    induction units as [|x units IH]; intros m ti k rate srate i pts ntp H; [exact H|].
-    cbn [write_audio_units].
-    destruct (match k with OPUS => (pts, ntp) | _ => _ end) as [upts untp].
-    match goal with |- context [fmp4WriteSample m ti true false ?s] =>
-      pose proof (T_fmp4WriteSample m ti true false s H) as H1;
-      destruct (fmp4WriteSample m ti true false s) as [m' r] end.
-    cbn [fst] in H1. destruct r as [u|e|p]; [|exact H1|exact H1].
-    destruct k; apply IH; exact H1.
-  Qed.
-
-  Lemma T_write_audio m ti t a : nth_error (m_tracks m) ti = Some t -> GG m -> GG (fst (write_audio m ti t a)).
-  Proof.
-    intros Ht H. unfold write_audio.
-    destruct (c_variant (m_cfg m)); try (apply T_write_audio_units; exact H).
-    destruct (nth_error (m_streams m) (tk_stream t)) as [s|] eqn:Es; [|exact H].
-    match goal with |- context [if ?c then wok m else _] => destruct c; [exact H|] end.
-    apply H_ts.
-    destruct (tk_leading t); [|exact H].
-    match goal with |- GG (if ?c then _ else _) => destruct c eqn:Ec end.
-    - apply negb_true_iff in Ec. eapply H_create; [exact Ht| |exact H].
-      unfold opened_at. rewrite Es. exact Ec.
-    - destruct (st_open s); [|exact H].
-      match goal with |- GG (if ?c then _ else _) => destruct c end; [|exact H].
-      now apply T_rotateSegments.
-  Qed.
 
   Lemma T_mux_step m o : GG m -> GG (fst (mux_step m o)).
-  Proof.
-    intros H. destruct o as [ti a]. unfold mux_step, mux_write.
-    destruct (nth_error (m_tracks m) ti) as [t|] eqn:Ht; [|exact H].
-    destruct (isVideo _); [now apply T_write_video|now apply T_write_audio].
-  Qed.
+  Proof. apply (TC_mux_step GG); auto using T_rotateParts, T_rotateSegments. Qed.
 
   Lemma T_mux_run ops : forall m, GG m -> GG (mux_run m ops).
   Proof.
